@@ -10,18 +10,13 @@ import ast
 import errno as _errno
 import z3
 from pyvc.contracts import *
-from pyvc.engine import LoopSpec, Out, Record, Prove, wrap_const, zt
+from pyvc.engine import LoopSpec, Out, Record, Prove, wrap_const, zt, CallCtx
 from pyvc.values import *
 from pyvc.builtins_model import be, unbe
 from pyvc import extract
 from .common import *
 
 PROP = 'C14'
-
-# protective: a query that makes z3 allocate without bound (seen on a mutant of send_packet: 49 GB) must end as
-# `unknown`, not take the machine down (hard cap in MB, inherited by the solver worker processes)
-Z3_MEM_CAP_MB = 6000
-z3.set_param('memory_max_size', Z3_MEM_CAP_MB)
 
 ASSUMPTIONS = []
 
@@ -259,19 +254,34 @@ def handler_stub(cx):
             continue
         for t in RESULT_SHAPES[sname]:
             outs.append(Out(ret=cx.fresh(t, 'result'), assume=[shape.z == sid], event=ev))
-    code, reason, lang = cx.fresh('int', 'exc_code'), cx.fresh('str', 'exc_reason'), cx.fresh('str', 'exc_lang')
     outs.append(Out(exc=VExc('PacketDecodeError'), event=ev))
-    outs.append(Out(exc=VExc('SFTPError', args=(code, reason, lang), attrs={'code': code, 'reason': reason, 'lang': lang}),
-                    assume=[code.z >= 0, code.z < 2 ** 32], event=ev))
     outs.append(Out(exc=VExc('NotImplementedError'), event=ev))
-    en, se = cx.fresh('opt[int]', 'exc_errno'), cx.fresh('opt[str]', 'exc_strerror')
-    outs.append(Out(exc=VExc('OSError', args=(en, se), attrs={'errno': en, 'strerror': se}), event=ev))
-    outs.append(Out(exc=VExc('ValueError'), event=ev))
+    outs.extend(local_failures(cx, ev))
     outs.append(Out(exc=VExc('CancelledError'), event=ev))
     return outs
 
 
 handler_stub.modifies = ()
+
+
+def local_failures(cx, event=None, oserror=True):
+    """the Exceptions a local computation (encoder, from_local) can end with, as _process_packet distinguishes them:
+    an SFTPError (status code fits a uint32), an OSError (any errno), any other Exception (ValueError)"""
+    code, reason, lang = cx.fresh('int', 'exc_code'), cx.fresh('str', 'exc_reason'), cx.fresh('str', 'exc_lang')
+    en, se = cx.fresh('opt[int]', 'exc_errno'), cx.fresh('opt[str]', 'exc_strerror')
+    outs = [Out(exc=VExc('SFTPError', args=(code, reason, lang), attrs={'code': code, 'reason': reason, 'lang': lang}),
+                assume=[code.z >= 0, code.z < 2 ** 32], event=event),
+            Out(exc=VExc('ValueError'), event=event)]
+    if oserror:
+        outs.append(Out(exc=VExc('OSError', args=(en, se), attrs={'errno': en, 'strerror': se}), event=event))
+    return outs
+
+
+def from_local_stub(typ, label):
+    def stub(cx):
+        return [Out(ret=cx.fresh(typ, label))] + local_failures(cx)
+    stub.modifies = ()
+    return stub
 
 
 def encode_stub(cx):
@@ -281,8 +291,7 @@ def encode_stub(cx):
     if isinstance(r, VExc):
         raise Unsupported(f'encode of exception {r.cls} is not inlined (call shape changed)')
     body = cx.fresh('bytes', 'encoded')
-    return [Out(ret=body, event=('encode_value', (r,) + tuple(cx.args) + (body,))),
-            Out(exc=VExc('ValueError'))]
+    return [Out(ret=body, event=('encode_value', (r,) + tuple(cx.args) + (body,)))] + local_failures(cx, oserror=False)
 
 
 encode_stub.modifies = ()
@@ -290,7 +299,7 @@ encode_stub.modifies = ()
 
 def join_names_stub(cx):
     """b''.join(name.encode(version) for name in names): bytes, or an Exception from one of the encoders"""
-    return [Out(ret=cx.fresh('bytes', 'names_encoded')), Out(exc=VExc('ValueError'))]
+    return [Out(ret=cx.fresh('bytes', 'names_encoded'))] + local_failures(cx, oserror=False)
 
 
 join_names_stub.modifies = ()
@@ -321,9 +330,16 @@ def srv_handler_exc(c):
     return None
 
 
+def encoder_exc(c):
+    """the Exception an encoder of the handler's result (attrs / names / limits / ranges encode, from_local) raised"""
+    for x in c.calls():
+        if x['key'] not in ('handler', 'self.send_packet') and x['exc'] is not None:
+            return x['exc']
+    return None
+
+
 def encode_failed(c):
-    """an encoder of the handler's result (attrs / names / limits / ranges encode, from_local) raised an Exception"""
-    return any(x['exc'] is not None for x in c.calls() if x['key'] not in ('handler', 'self.send_packet'))
+    return encoder_exc(c) is not None
 
 
 def exactly_one_reply(c):
@@ -408,8 +424,10 @@ def error_status(c):
         trunc = z3.And(c.arg('pkttype') == FXP_EXTENDED, z3.Not(ok))
         return z3.If(trunc, is_status(FX_BAD_MESSAGE), is_status(wire_code(z3.IntVal(FX_OP_UNSUPPORTED), ver)))
     if exc is None:
-        # success, or a failure while encoding the result (any other Exception)
-        return is_status(FX_FAILURE) if encode_failed(c) else z3.BoolVal(True)
+        # success, or a local failure while encoding the result: mapped like a failure of the handler itself
+        exc = encoder_exc(c)
+        if exc is None:
+            return z3.BoolVal(True)
     if exc.cls == 'PacketDecodeError':
         return is_status(FX_BAD_MESSAGE)
     if exc.cls == 'SFTPError':
@@ -470,8 +488,8 @@ srv_process_packet = Spec(
         'handler': handler_stub,
         'attrs.encode': encode_stub, 'result.encode': encode_stub,
         "b''.join": join_names_stub,
-        'SFTPAttrs.from_local': may_raise(ret('obj:SFTPAttrs', 'attrs_from_local'), 'ValueError'),
-        'SFTPVFSAttrs.from_local': may_raise(ret('obj:SFTPVFSAttrs', 'vfsattrs_from_local'), 'ValueError'),
+        'SFTPAttrs.from_local': from_local_stub('obj:SFTPAttrs', 'attrs_from_local'),
+        'SFTPVFSAttrs.from_local': from_local_stub('obj:SFTPVFSAttrs', 'vfsattrs_from_local'),
         '*.log': noop(),
         'self.send_packet': send_packet_stub,
     },
@@ -701,8 +719,12 @@ def await_waiter_stub(cx):
     def env():
         return {'_requests': cx.fresh(REQ_T, 'requests_on_resume'), '_next_pktid': cx.fresh('int', 'next_on_resume')}
     rt = cx.fresh('int', 'resptype')
-    outs = [Out(ret=VTuple([rt, cx.fresh('obj:SSHPacket', 'resp')]), sets=env(),
-                assume=[rt.z >= 0, rt.z <= 255], event=ev)]
+    resp = cx.fresh('obj:SSHPacket', 'resp')
+    rr = cx.st.rec(resp)
+    # what set_result was given by _process_packet: the type byte and the packet, read up to the end of its header
+    wf = [rr.fields['_idx'].z == 5, rr.fields['_idx'].z <= rr.fields['_len'].z,
+          rr.fields['_len'].z == z3.Length(rr.fields['_packet'].z)]
+    outs = [Out(ret=VTuple([rt, resp]), sets=env(), assume=[rt.z >= 0, rt.z <= 255] + wf, event=ev)]
     for cls in ('SFTPError', 'OSError', 'CancelledError'):
         outs.append(Out(exc=VExc(cls), sets=env(), event=ev))
     return outs
@@ -711,30 +733,43 @@ def await_waiter_stub(cx):
 await_waiter_stub.modifies = ('_requests', '_next_pktid')
 
 
+DECODER_SPECS = {}     # decoder method name -> Spec (filled below, where the decoders are put under contract)
+
+
 def reply_decoder_stub(cx):
     """self._packet_handlers[resptype](self, resp): the reply decoder registered for the reply type in the real
-    table; returns a value of its annotated type, or raises (error status -> SFTPError, malformed body ->
-    PacketDecodeError / SFTPBadMessage); KeyError if no decoder is registered for the type"""
+    table, used through the CONTRACT proved for it below (DECODER_SPECS, keyed by the decoder's name);
+    KeyError if no decoder is registered for the type"""
     rs = cx.ex.ev(cx.node.func.slice, cx.st)
     if len(rs) != 1 or rs[0][0] is not cx.st or not isinstance(rs[0][1], VInt):
         raise Unsupported('reply decoder lookup changed shape')
     rt = rs[0][1]
     tab = cx.ex.deref(cx.st, cx.selff('_packet_handlers'))
-    if not isinstance(tab, VDict):
-        raise Unsupported('decoder table changed shape')
+    if not isinstance(tab, VDict) or len(cx.args) != 2:
+        raise Unsupported('decoder table / call changed shape')
+    resp = cx.args[1]
     outs, miss = [], []
     for ck, d in tab.items.items():
         if not isinstance(ck, int):
             raise Unsupported('decoder table key')
-        rec = cx.st.rec(d)
-        shape = [k for k, i in REPLY_SHAPE_IDS.items() if i == concrete_int(rec.fields['ghost_shape'])][0]
-        ev = ('decode', (d, rt) + tuple(cx.args))
-        outs.append(Out(ret=cx.fresh(REPLY_SHAPES[shape], 'decoded'), assume=[rt.z == ck], event=ev))
         miss.append(rt.z != ck)
-    ev = ('decode', (None, rt) + tuple(cx.args))
-    hit = z3.Not(z3.And(miss))
-    outs.append(Out(exc=VExc('SFTPError'), assume=[hit], event=ev))
-    outs.append(Out(exc=VExc('PacketDecodeError'), assume=[hit], event=ev))
+        if not cx.ex.feasible(cx.st, rt.z == ck):
+            continue
+        name = concrete_str(cx.st.rec(d).fields['__name__'])
+        spec = DECODER_SPECS.get(name)
+        if spec is None:
+            raise Unsupported(f'reply decoder {name} is not under contract')
+        if name == '_process_extended_reply':
+            # proved below: returns its argument (the caller decodes extended replies itself)
+            outs.append(Out(ret=resp, assume=[rt.z == ck], event=('decode', (d, rt, resp))))
+            continue
+        sub = CallCtx(cx.ex, cx.st, cx.key, None, [resp], {}, cx.node)
+        for o in contract_stub(spec)(sub):
+            o.assume = [rt.z == ck] + list(o.assume)
+            o.event = ('decode', (d, rt, resp))
+            outs.append(o)
+        for lab, z in sub.requires:
+            cx.require(f'{name}:{lab}', z3.Implies(rt.z == ck, z))
     outs.append(Out(exc=VExc('KeyError'), assume=[z3.And(miss)]))
     return outs
 
@@ -776,7 +811,7 @@ def type_check(c):
     dec = c.events('decode')
     conj = [z3.Or(rt.z == FXP_STATUS, z3.And(has, rt.z == typ)), z3.BoolVal(len(dec) == 1)]
     if len(dec) == 1:
-        d, drt, _self, dresp = dec[0][1]
+        d, drt, dresp = dec[0][1]
         conj.append(drt.z == rt.z)
         conj.append(z3.BoolVal(isinstance(dresp, VRef) and dresp.addr == resp.addr))
         conj.append(z3.BoolVal(d is not None))
@@ -788,7 +823,37 @@ def type_check(c):
                     FXP_EXTENDED_REPLY: '_process_extended_reply'}
             conj.append(z3.And([z3.Implies(rt.z == k, z3.BoolVal(nm == v)) for k, v in want.items()]))
     conj.append(z3.Implies(has, z3.Not(c.is_none(c.result_v))))
+    # the value is what the reply body says (through the decoders' proved contracts): None only for SSH_FX_OK,
+    # a handle / data reply yields the string at the head of the body
+    data = c.new_state.rec(resp).fields['_packet'].z
+    n, s0 = _string_at(data, z3.IntVal(5))
+    conj.append(z3.Implies(rt.z == FXP_STATUS, z3.And(c.is_none(c.result_v), unbe(z3.Extract(data, 5, 4)) == FX_OK)))
+    if isinstance(c.result_v, VBytes):
+        conj.append(z3.Implies(rt.z == FXP_HANDLE, c.result == s0))
+    if isinstance(c.result_v, VTuple) and isinstance(c.result_v.items[0], VBytes):
+        conj.append(z3.Implies(rt.z == FXP_DATA, c.result_v.items[0].z == s0))
     return z3.And(conj)
+
+
+def decoder_call(c):
+    xs = [x for x in c.calls() if x['key'] == 'self._packet_handlers[]']
+    return xs[-1] if xs else None
+
+
+def error_delivered(c):
+    """SFTPError reaches the caller from the send, from its own future (session torn down), or from the decoder of
+    its reply: then the reply was an SSH_FXP_STATUS whose code is not SSH_FX_OK (or a name / attrs reply whose
+    attribute block is malformed)"""
+    d = decoder_call(c)
+    if d is None or d['exc'] is None:
+        return z3.BoolVal(True)
+    r = cli_resp(c)
+    if r is None:
+        return z3.BoolVal(False)
+    rt, resp = r
+    data = c.new_state.rec(resp).fields['_packet'].z
+    return z3.And(z3.Or(rt.z == FXP_STATUS, rt.z == FXP_NAME, rt.z == FXP_ATTRS),   # the latter: bad attribute block
+                  z3.Implies(rt.z == FXP_STATUS, unbe(z3.Extract(data, 5, 4)) != FX_OK))
 
 
 def wrong_type_rejected(c):
@@ -803,6 +868,9 @@ def wrong_type_rejected(c):
     dec = c.events('decode')
     if not dec:
         return z3.Not(legal)
+    d = decoder_call(c)
+    if d is not None and d['exc'] is not None:
+        return legal        # the decoder itself found the body malformed (bad text / undefined attribute flags)
     return z3.And(legal, has, rt.z == FXP_STATUS)
 
 
@@ -828,8 +896,12 @@ def outstanding_until_replied(c):
     finds its id and does not tear the session down for everybody else"""
     aw = awaited(c)
     if aw:
-        return z3.And(c.newv('_requests').dom == aw[-1]['sets']['_requests'].dom,
-                      c.newv('_requests').val == aw[-1]['sets']['_requests'].val)
+        now, then = c.ex.deref(c.new_state, c.newv('_requests')), aw[-1]['sets']['_requests']
+        if isinstance(now, VDict):
+            if now.items:
+                return z3.BoolVal(False)
+            return then.dom == z3.K(IntS, False)        # rebound to an empty dict: equal only if it was empty
+        return z3.And(now.dom == then.dom, now.val == then.val)
     return z3.BoolVal(True)
 
 
@@ -845,10 +917,11 @@ def _mk_make_request(kind):
                'self._return_types.get': table_get_int('_return_types'),
                'self._packet_handlers[]': reply_decoder_stub},
         requires=lambda c: z3.And(id_inv(c), z3.Not(z3.Select(c.oldv('_requests').dom, c.old('_next_pktid'))),
+                                  c.old('_version') >= 3, c.old('_version') <= 6,
                                   *([c.arg('pkttype') >= 0, c.arg('pkttype') <= 255] if kind == 'int' else [])),
         ensures=[('reply-type-check', type_check)],
         always=[('awaits-own-waiter', own_waiter), ('outstanding-until-replied', outstanding_until_replied)],
-        raises={'SFTPBadMessage': wrong_type_rejected, 'SFTPError': True, 'PacketDecodeError': True,
+        raises={'SFTPBadMessage': wrong_type_rejected, 'SFTPError': error_delivered, 'PacketDecodeError': True,
                 'OSError': True, 'CancelledError': True},
         cases=[('ext-name' if kind == 'bytes' else 'plain-type', {})])
     return sp
@@ -878,7 +951,7 @@ def bounded_codecs(tier):
 
 
 def extra_checks(tier, seed):
-    return {'bounded': [bounded_codecs(tier)], 'lemmas': []}
+    return {'bounded': [bounded_codecs(tier)], 'lemmas': [scan_request_handlers()]}
 
 
 # ------------------------------------------------------------------------------------------------ framing / loop
@@ -950,12 +1023,17 @@ def dispatch_stub(cx):
                z3.BoolVal(bool(recvd) and isinstance(p, VRef) and recvd[-1][1][0].addr == p.addr))
     n = cx.selff('ghost_dispatched')
     ev = ('dispatch', tuple(cx.args))
-    return [Out(sets={'ghost_dispatched': VInt(n.z + 1)}, event=ev),
-            Out(exc=VExc('SFTPError'), sets={'ghost_dispatched': VInt(n.z + 1)}, event=ev),
-            Out(exc=VExc('CancelledError'), sets={'ghost_dispatched': VInt(n.z + 1)}, event=ev)]
+
+    def sets():
+        # the client's _process_packet tears the session down on an unknown reply id (its _cleanup clears
+        # _reader / _writer): the loop must cope with the session having been closed by the dispatch
+        return {'ghost_dispatched': VInt(n.z + 1), '_reader': cx.fresh('opt[obj:Reader]', 'reader_after_dispatch'),
+                '_writer': cx.fresh('opt[obj:Writer]', 'writer_after_dispatch')}
+    return [Out(sets=sets(), event=ev), Out(exc=VExc('SFTPError'), sets=sets(), event=ev),
+            Out(exc=VExc('CancelledError'), sets=sets(), event=ev)]
 
 
-dispatch_stub.modifies = ('ghost_dispatched',)
+dispatch_stub.modifies = ('ghost_dispatched', '_reader', '_writer')
 
 
 def base_cleanup_stub(cx):
@@ -1002,7 +1080,7 @@ recv_packets = Spec(
     classes=HANDLER_CLASSES, inline=dict(PACKET_INLINE), truthy=PACKET_TRUTHY,
     stubs={'self.recv_packet': recv_packet_stub, 'self.log_received_packet': noop(),
            'self._process_packet': dispatch_stub, 'self._cleanup': base_cleanup_stub},
-    loops={1: LoopSpec(invariant=loop_inv, modifies=['ghost_received', 'ghost_dispatched'])},
+    loops={1: LoopSpec(invariant=loop_inv, modifies=['ghost_received', 'ghost_dispatched', '_reader', '_writer'])},
     requires=lambda c: c.old('ghost_received') == c.old('ghost_dispatched'),
     ensures=[('session-ends-only-on-eof-or-framing-error', session_end)],
     always=[('dispatched-at-most-once-each', lambda c: z3.And(c.new('ghost_dispatched') <= c.new('ghost_received'),
@@ -1067,20 +1145,218 @@ def data_reply(c):
                   z3.Implies(end == ln, z3.Not(at_end)))
 
 
-def _mk_decoder(name, post):
-    return Spec(
+# spec functions for the variable-length record decoders (SFTPAttrs.decode, `count` x SFTPName.decode): where the
+# record(s) end and what they decode to are uninterpreted functions of (body, start, [count,] version); the
+# codecs themselves are exercised by the bounded round trip (extra_checks)
+attrs_end = z3.Function('sftp_attrs_end', BytesS, IntS, IntS, IntS)
+names_end = z3.Function('sftp_names_end', BytesS, IntS, IntS, IntS, IntS)
+names_of = z3.Function('sftp_names_of', BytesS, IntS, IntS, IntS, z3.SeqSort(sort_of('opaque:SFTPName')))
+
+
+def _pkt(cx):
+    p = cx.st.env.get('packet')
+    if not isinstance(p, VRef):
+        raise Unsupported('decoder stub: no local `packet`')
+    r = cx.st.rec(p)
+    return p, r.fields['_packet'].z, r.fields['_idx'].z, r.fields['_len'].z
+
+
+def attrs_decode_stub(cx):
+    """SFTPAttrs.decode(packet, version): an SFTPAttrs, the read position moved to the end of the attribute
+    block (attrs_end, inside the body); PacketDecodeError if the body ends inside the block; SFTPError
+    (SFTPBadMessage: flags the version does not define / bad text, SFTPOwnerInvalid, SFTPGroupInvalid)"""
+    p, data, idx, ln = _pkt(cx)
+    if len(cx.args) != 2 or not (isinstance(cx.args[0], VRef) and cx.args[0].addr == p.addr):
+        raise Unsupported('SFTPAttrs.decode call changed shape')
+    end = attrs_end(data, idx, cx.args[1].z)
+    a = cx.fresh('obj:SFTPAttrs', 'attrs')
+    ev = ('attrs-decode', (a, VInt(idx)))
+    return [Out(ret=a, osets=[(p, '_idx', VInt(end))], assume=[end >= idx, end <= ln], event=ev),
+            Out(exc=VExc('PacketDecodeError'), osets=[(p, '_idx', cx.fresh('int', 'idx_at_failure'))]),
+            Out(exc=VExc('SFTPError'), osets=[(p, '_idx', cx.fresh('int', 'idx_at_failure'))])]
+
+
+attrs_decode_stub.modifies = ()
+
+
+def names_listcomp_stub(cx):
+    """[SFTPName.decode(packet, version) for _ in range(count)]: `count` names decoded one after the other
+    (names_of), the read position moved behind the last one (names_end, inside the body); or one of the decodes
+    fails (PacketDecodeError / SFTPError as for SFTPAttrs.decode)"""
+    p, data, idx, ln = _pkt(cx)
+    it = cx.args[0]
+    if not (isinstance(it, VTag) and it.tag == 'range'):
+        raise Unsupported('name list comprehension changed shape')
+    lo, count = it.payload
+    ver = cx.selff('_version').z
+    end = names_end(data, idx, count, ver)
+    ns = names_of(data, idx, count, ver)
+    return [Out(ret=VSeq(ns, 'opaque:SFTPName'), osets=[(p, '_idx', VInt(end))],
+                assume=[lo == 0, end >= idx, end <= ln, z3.Length(ns) == z3.If(count > 0, count, 0)]),
+            Out(exc=VExc('PacketDecodeError'), osets=[(p, '_idx', cx.fresh('int', 'idx_at_failure'))]),
+            Out(exc=VExc('SFTPError'), osets=[(p, '_idx', cx.fresh('int', 'idx_at_failure'))])]
+
+
+names_listcomp_stub.modifies = ()
+
+
+def _idx_after(c):
+    return c.new_state.rec(c.argv('packet')).fields['_idx'].z
+
+
+def error_map_table():
+    """{status code: exception class name} of the real module-level _sftp_error_map"""
+    mod = extract.get_module('sftp')
+    node = mod.consts.get('__nodes__', {}).get('_sftp_error_map')
+    if not isinstance(node, ast.Dict) or not all(isinstance(v, ast.Name) for v in node.values):
+        raise Unsupported('_sftp_error_map is not a dict display of class names')
+    return {_const(mod, k): v.id for k, v in zip(node.keys, node.values)}
+
+
+def error_map_stub(cx):
+    """_sftp_error_map[code](reason, lang) over the real table: the exception the table's class constructs (its
+    status code is the one that class passes to SFTPError.__init__, read from the source), KeyError for a code
+    without an entry.  The class is represented by its base SFTPError (nobody below catches a subclass)."""
+    rs = cx.ex.ev(cx.node.func.slice, cx.st)
+    if len(rs) != 1 or rs[0][0] is not cx.st or not isinstance(rs[0][1], VInt) or len(cx.args) != 2:
+        raise Unsupported('_sftp_error_map lookup changed shape')
+    code = rs[0][1].z
+    hit, val = [], z3.IntVal(-1)
+    for k, cls in error_map_table().items():
+        hit.append(code == k)
+        val = z3.If(code == k, error_code_of(cls), val)
+    reason, lang = cx.args
+    exc = VExc('SFTPError', args=(VInt(val), reason, lang), attrs={'code': VInt(val), 'reason': reason, 'lang': lang})
+    return [Out(ret=exc, assume=[z3.Or(hit)]), Out(exc=VExc('KeyError'), assume=[z3.Not(z3.Or(hit))])]
+
+
+error_map_stub.modifies = ()
+error_map_stub.pure = True
+
+
+def _status_code(c):
+    data, idx, _ln = _body(c)
+    return unbe(z3.Extract(data, idx, 4))
+
+
+def construct_post(c):
+    """SSH_FXP_STATUS body = uint32 code [string message, string language]: SSH_FX_OK <-> None; any other code
+    yields an exception object carrying exactly that code"""
+    code = _status_code(c)
+    r = c.result_v
+    if r is VNone:
+        return code == FX_OK
+    if isinstance(r, VExc) and 'code' in r.attrs and extract.is_subclass(r.cls, 'SFTPError'):
+        return z3.And(code != FX_OK, r.attrs['code'].z == code)
+    return z3.BoolVal(False)
+
+
+STATUS_STUBS = {'_sftp_error_map[]': error_map_stub, 'exc.decode': may_raise(noop(), 'PacketDecodeError')}
+STATUS_EXC_ATTRS = {'SFTPError': lambda args, kw: {'code': args[0], 'reason': args[1],
+                                                   'lang': args[2] if len(args) > 2 else default_lang()}}
+
+
+def _error_map_global():
+    return VDict({k: VTag('class:' + v) for k, v in error_map_table().items()})
+
+
+status_construct = Spec(
+    PROP, 'sftp', 'SFTPError.construct',
+    params=dict(packet='obj:SSHPacket', utf8_decode_errors='str'),
+    classes=dict(PACKET_CLASSES), inline=dict(PACKET_INLINE), truthy=PACKET_TRUTHY,
+    stubs=dict(STATUS_STUBS), exc_attrs=STATUS_EXC_ATTRS, globals={'_sftp_error_map': _error_map_global()},
+    requires=lambda c: packet_wf(c, c.argv('packet')),
+    ensures=[('ok-is-none-else-exception-with-that-code', construct_post)],
+    # truncated body / error-specific data; undecodable message or language tag
+    raises={'PacketDecodeError': True, 'SFTPBadMessage': True})
+status_construct.no_replay = True     # a bare @staticmethod with a scripted module-level table: not replayable
+
+
+def status_reply(c):
+    """returns (None) only for SSH_FX_OK; before v6 nothing may follow the three fields"""
+    return z3.And(_status_code(c) == FX_OK, z3.BoolVal(c.result_v is VNone),
+                  z3.Implies(c.old('_version') < 6, _idx_after(c) == _body(c)[2]))
+
+
+def status_raised(c):
+    """an SFTPError is raised only for a code other than SSH_FX_OK, and it carries that code"""
+    code = _status_code(c)
+    r = c.result_v
+    if isinstance(r, VExc) and 'code' in r.attrs:
+        return z3.And(code != FX_OK, r.attrs['code'].z == code)
+    if getattr(c, 'callee_view', False):
+        return code != FX_OK
+    return z3.BoolVal(False)
+
+
+def names_reply(c):
+    """SSH_FXP_NAME body = uint32 count, count names [bool end-of-list, v6]: all `count` names are returned, in
+    order; before v6 nothing may follow them"""
+    data, idx, ln = _body(c)
+    count = unbe(z3.Extract(data, idx, 4))
+    ver = c.old('_version')
+    r = c.result_v
+    if not isinstance(r, VTuple) or len(r.items) != 2:
+        return z3.BoolVal(False)
+    names = c.ex.deref(c.new_state, r.items[0])
+    if not isinstance(names, VSeq):
+        return z3.BoolVal(False)
+    end = names_end(data, idx + 4, count, ver)
+    at_end = r.items[1].z if isinstance(r.items[1], VBool) else r.items[1].z != 0
+    return z3.And(idx + 4 <= ln, names.z == names_of(data, idx + 4, count, ver), z3.Length(names.z) == count,
+                  z3.Implies(ver < 6, z3.And(end == ln, z3.Not(at_end))),
+                  z3.Implies(z3.And(ver >= 6, end < ln), at_end == (data[end] != 0)),
+                  z3.Implies(end == ln, z3.Not(at_end)))
+
+
+def attrs_reply(c):
+    """SSH_FXP_ATTRS body = one attribute block; before v6 nothing may follow it"""
+    data, idx, ln = _body(c)
+    end = attrs_end(data, idx, c.old('_version'))
+    conj = [z3.Implies(c.old('_version') < 6, end == ln), end <= ln]
+    if not getattr(c, 'callee_view', False):
+        dec = c.events('attrs-decode')
+        conj.append(z3.BoolVal(len(dec) == 1 and isinstance(c.result_v, VRef) and dec[0][1][0].addr == c.result_v.addr))
+    return z3.And(conj)
+
+
+def _mk_decoder(name, post, returns, stubs=None, raises=None, **kw):
+    sp = Spec(
         PROP, 'sftp', 'SFTPClientHandler.' + name, self_class='SFTPClientHandler',
         params=dict(packet='obj:SSHPacket'),
-        classes=dict(PACKET_CLASSES, SFTPClientHandler={'_version': 'int'}),
-        inline=dict(PACKET_INLINE), truthy=PACKET_TRUTHY,
+        classes=dict(PACKET_CLASSES, SFTPClientHandler={'_version': 'int', '_utf8_decode_errors': 'str'}, SFTPAttrs={}),
+        inline=dict(PACKET_INLINE, **kw.pop('inline', {})), truthy=PACKET_TRUTHY, stubs=stubs or {},
         requires=lambda c: z3.And(packet_wf(c, c.argv('packet')), c.old('_version') >= 3, c.old('_version') <= 6),
-        ensures=[('body-layout', post)],
+        ensures=[('body-layout', post)], returns=returns,
         # a body that is too short, or (before v6) too long, is malformed
-        raises={'PacketDecodeError': True})
+        raises=raises or {'PacketDecodeError': True}, **kw)
+    DECODER_SPECS[name] = sp
+    return sp
 
 
-decode_handle = _mk_decoder('_process_handle', handle_reply)
-decode_data = _mk_decoder('_process_data', data_reply)
+decode_handle = _mk_decoder('_process_handle', handle_reply, 'bytes')
+decode_data = _mk_decoder('_process_data', data_reply, 'tuple[bytes,bool]')
+decode_status = _mk_decoder(
+    '_process_status', status_reply, None, stubs=dict(STATUS_STUBS),
+    inline={'SFTPError.construct': ('sftp', 'SFTPError.construct')}, exc_attrs=STATUS_EXC_ATTRS,
+    globals={'_sftp_error_map': _error_map_global()},
+    raises={'PacketDecodeError': True, 'SFTPBadMessage': True, 'SFTPError': status_raised})
+decode_status.no_replay = True        # the module-level error table is modelled, not scripted
+decode_names = _mk_decoder(
+    '_process_name', names_reply, 'tuple[seq[opaque:SFTPName],bool]',
+    stubs={'listcomp SFTPName.decode(packet, self._version)': names_listcomp_stub},
+    loops={1: LoopSpec(invariant=lambda c: z3.BoolVal(True))},
+    raises={'PacketDecodeError': True, 'SFTPError': True})
+decode_names.no_replay = True         # the comprehension is modelled by a stub, natively it is not a call
+decode_attrs = _mk_decoder(
+    '_process_attrs', attrs_reply, 'obj:SFTPAttrs',
+    stubs={'SFTPAttrs': ret('obj:SFTPAttrs', 'blank_attrs'), 'SFTPAttrs().decode': attrs_decode_stub},
+    raises={'PacketDecodeError': True, 'SFTPError': True})
+decode_attrs.no_replay = True
+decode_extended = _mk_decoder(
+    '_process_extended_reply',
+    lambda c: z3.BoolVal(isinstance(c.result_v, VRef) and c.result_v.addr == c.argv('packet').addr), 'obj:SSHPacket',
+    raises={})
 
 
 # ------------------------------------------------------------------------------------------------ recv_packet
@@ -1142,3 +1418,92 @@ ASSUMPTIONS += [
 ]
 # the harness cannot build a bare exception instance; the same code is cross-checked inlined in _process_packet
 sftp_error_encode.no_replay = True
+
+
+# ------------------------------------------------------------------------------------------------ request bodies
+# The decode prefix of every request handler in the server's dispatch table: the statements up to the last one
+# that touches `packet`.  Proved per handler: the prefix raises nothing but PacketDecodeError (body shorter than its
+# fields, or - before v6, where the drafts do not allow extra fields - longer) and the SFTPError of the attribute
+# decoder; when it completes before v6 the whole body was consumed.  A scan (extra_checks) shows that nothing after
+# the prefix reads the packet and no SFTPServer callback is called inside it: callbacks run only on fully decoded
+# bodies.  Requests that exist only in v6 (link, block, unblock: filexfer-13 8.x) have no pre-v6 body layout.
+V6_ONLY_REQUESTS = {FXP_LINK, FXP_BLOCK, FXP_UNBLOCK}
+
+
+def _handler_body(fn):
+    return [s_ for s_ in fn.body if not (isinstance(s_, ast.Expr) and isinstance(s_.value, ast.Constant))]
+
+
+def _mentions(node, pred):
+    return any(pred(n) for n in ast.walk(node))
+
+
+def _is_packet(n):
+    return isinstance(n, ast.Name) and n.id == 'packet'
+
+
+def _is_server_cb(n):
+    return isinstance(n, ast.Attribute) and n.attr == '_server'
+
+
+def prefix_region(fn):
+    body = _handler_body(fn)
+    idx = [i for i, s_ in enumerate(body) if _mentions(s_, _is_packet)]
+    return body[:idx[-1] + 1] if idx else []
+
+
+def whole_body_consumed(c):
+    r = c.new_state.rec(c.argv('packet'))
+    return z3.Implies(c.old('_version') < 6, r.fields['_idx'].z == r.fields['_len'].z)
+
+
+SRV_PREFIX_CLASSES = dict(PACKET_CLASSES, SFTPAttrs={}, **{
+    'SFTPServerHandler': {'_version': 'int', '_nonstandard_symlink': 'bool', '_realpath_check_names': 'dict[int,str]'}})
+REQUEST_PREFIX_SPECS = {}
+
+
+def _mk_request_prefix(key, name):
+    v6_only = key in V6_ONLY_REQUESTS
+    sp = Spec(
+        PROP, 'sftp', 'SFTPServerHandler.' + name, self_class='SFTPServerHandler',
+        params=dict(packet='obj:SSHPacket'), classes=SRV_PREFIX_CLASSES,
+        inline=dict(PACKET_INLINE), truthy=PACKET_TRUTHY, region=prefix_region,
+        stubs={'SFTPAttrs.decode': attrs_decode_stub},
+        loops={1: LoopSpec(invariant=lambda c: packet_wf(c, c.argv('packet')))},
+        local_types={'compose_paths': 'seq[bytes]'},
+        requires=lambda c: z3.And(packet_wf(c, c.argv('packet')), c.old('_version') >= (6 if v6_only else 3),
+                                  c.old('_version') <= 6),
+        ensures=[('whole-body-consumed-before-v6', whole_body_consumed)],
+        raises={'PacketDecodeError': True,
+                # only the attribute block decoder (undefined flags, bad owner / group / MIME text) and the v6
+                # realpath control byte check report a malformed body as an SFTPError (-> that error's status)
+                'SFTPError': lambda c: z3.BoolVal(True)})
+    REQUEST_PREFIX_SPECS[name] = sp
+    return sp
+
+
+for _k, _n in class_table('sftp', 'SFTPServerHandler', '_packet_handlers',
+                          lambda m, n: n.id if isinstance(n, ast.Name) else None).items():
+    if _n is not None and _n not in REQUEST_PREFIX_SPECS:
+        _mk_request_prefix(_k, _n)
+
+
+def scan_request_handlers():
+    """per handler in the dispatch table: nothing after the decode prefix touches the packet, no SFTPServer callback
+    inside the prefix (=> callbacks see only completely decoded bodies)"""
+    mod = extract.get_module('sftp')
+    problems, n = [], 0
+    for name in REQUEST_PREFIX_SPECS:
+        fn = mod.get_function('SFTPServerHandler.' + name)
+        body = _handler_body(fn)
+        pre = prefix_region(fn)
+        n += 1
+        for s_ in pre:
+            if _mentions(s_, _is_server_cb):
+                problems.append(f'{name}:{s_.lineno} server callback inside the decode prefix')
+        for s_ in body[len(pre):]:
+            if _mentions(s_, _is_packet):
+                problems.append(f'{name}:{s_.lineno} packet used after the decode prefix')
+    return {'name': 'C14.sftp.SFTPServerHandler._process_*#scan(callbacks-only-after-the-whole-body-is-decoded)',
+            'verdict': 'proved' if n and not problems else 'refuted', 'backend': 'AST scan', 'detail': problems[:10],
+            'handlers': n, 'replayed': False}
